@@ -178,6 +178,10 @@ def run_check(modname, tier, seed):
     from mc import extshim
 
     extshim.build()  # compile once, before the pool starts
+    extshim.install()  # the parent may import matid while listing shards; workers are forked from it
+    import warnings
+
+    warnings.filterwarnings("ignore")
     mod = importlib.import_module(modname)
     prop = mod.PROPERTY
     shards = mod.shards(tier, seed)
